@@ -3,7 +3,7 @@
 
 Mirror of the code *after* the four `fix:` commits recorded in `known_findings.d/C17.json`
 (`vdb_filter` reference counted; `replace_op` honours `force`; a refused `replace_op` restores the
-displaced package by force; `replace_op.revert` restores unconditionally).
+displaced package by force; `replace_op.revert` restores unconditionally; `pkg_choices` keyed by identity).
 
 Objects (packages, blockers, choice points, forced restrictions) are natural-number identities; the
 attributes the code reads from them (`pkg.key`, `pkg.slot`, `blocker.key`, `blocker.match(pkg)`) are
@@ -121,7 +121,8 @@ def increfApply (U : Univ) (s : State) (c b : Nat) : State × List Nat :=
      limiters := if b ∈ s.refcnt then s.limiters else (addLimiter U s b).1.limiters
      revb := s.revb ++ [(c, b)]
      refcnt := s.refcnt ++ [b] },
-   if b ∈ s.refcnt then [] else (addLimiter U s b).2)
+   -- an already active blocker reports its current matches too (fix 0a3cc5d: packages can have been forced in past it)
+   if b ∈ s.refcnt then findMatches U s b else (addLimiter U s b).2)
 
 /-- `incref_forward_block_op.revert` -/
 def increfRevert (s : State) (c b : Nat) : Option State :=
